@@ -290,6 +290,11 @@ func c10Scenarios(tier string) []txScen {
 		{name: "C10/sweep forwards into the waiter's topic", cfg: ord, prelude: []model.Op{pub1("T0", "", 0), pull("S0", 10), tick("lease+")}, threads: []txThread{{"WD", []model.Op{pullWait("SD")}}, {"S", []model.Op{sweep()}}}, oracle: waiterGot("WD")},
 		{name: "C10/seek re-opens a message", cfg: two, prelude: []model.Op{pub1("T0", "", 0), pull("S0", 10), ack("S0", "all")}, threads: []txThread{{"W", []model.Op{pullWait("S0")}}, {"K", []model.Op{seekT("S0", "before-all")}}}, oracle: waiterGot("W")},
 		{name: "C10/seek to snapshot re-opens a message", cfg: two, prelude: []model.Op{pub1("T0", "", 0), snap("S0", "N0"), pull("S0", 10), ack("S0", "all")}, threads: []txThread{{"W", []model.Op{pullWait("S0")}}, {"K", []model.Op{seekS("S0", "N0")}}}, oracle: waiterGot("W")},
+		// a seek that only ACKNOWLEDGES (snapshot taken when M1 was acked, M1 revived
+		// and leased since) completes the predecessor of M2
+		{name: "C10/seek to snapshot acknowledges an ordered predecessor", cfg: model.Cfg{Topics: []string{"T0"}, Subs: []model.SubCfg{{Name: "S0", Topic: "T0", Ordered: true}}},
+			prelude: []model.Op{pubN("T0", "K1", "K1"), pull("S0", 10), ack("S0", "all"), snap("S0", "N0"), seekT("S0", "before-all"), pull("S0", 10)},
+			threads: []txThread{{"W", []model.Op{pullWait("S0")}}, {"K", []model.Op{seekS("S0", "N0")}}}, oracle: waiterGot("W")},
 		{name: "C10/publish batch to ordered subscription", cfg: ord, threads: []txThread{{"W", []model.Op{pullWait("S0")}}, {"P", []model.Op{pubN("T0", "K1", "K1", "")}}}, oracle: waiterGot("W")},
 		{name: "C10/stream nack (zero deadline via the stream path)", cfg: two, prelude: leasedBoth, threads: []txThread{{"W", []model.Op{pullWait("S1")}}, {"N", []model.Op{{K: "streamModack", Sub: "S0", Sel: "span", D: 0}}}}, oracle: waiterGot("W")},
 		{name: "C10/two writers: publish and ack", cfg: ord, prelude: []model.Op{pubN("T0", "K1", "K1"), pull("S0", 10)}, threads: []txThread{{"W", []model.Op{pullWait("S0")}}, {"A", []model.Op{ack("S0", "oldest")}}, {"P", []model.Op{pub1("T0", "K2", 0)}}}, oracle: waiterGot("W"), bound: 2},
